@@ -836,7 +836,7 @@ def evaluate(ctx, cases, results, use_model=True):
             continue
         wbflag, prflag = bool(m[3]), bool(m[4])
         if prflag and not wbflag:
-            ctx.tie_break('printable tree whose model parse tree is not well-bracketed (contradicts C11_print_wellbracketed_partial)', rec)
+            ctx.tie_break('printable tree whose model parse tree is not well-bracketed (contradicts C11_print_wellbracketed)', rec)
         try:
             got = nf_ast(ast.parse(mtext, mode='eval'))
         except SyntaxError as e:
@@ -871,7 +871,7 @@ def run(ctx):
                     'unambiguity of Python\'s expression grammar (sampled: ast.parse of every emitted text vs the model parse tree)',
                     'float literals: repr(float) round-trips (placeholder in the model text)',
                     'SymPy precedence(), as_coeff_Mul, make_args, _keep_coeff modelled in PyPrinter.v; _keep_coeff assumed plain (checked per case)',
-                    'premises of C11_print_value_partial / C11_trig_rewrite_sound: psem x 1 = x, psem x (-y) = 1/psem x y (y > 0), '
+                    'premises of C11_print_value / C11_trig_rewrite_sound: psem x 1 = x, psem x (-y) = 1/psem x y (y > 0), '
                     'sec = 1/cos ... acoth x = atanh(1/x)']
     cases = load_corpus() + gen_cases(ctx.seed, ctx.tier)
     results = vlib.pmap(work, cases)
